@@ -920,7 +920,26 @@ func genCase(rng *rand.Rand, w window, valid bool, maxv int) *snapCase {
 		rng.Shuffle(len(c.tmids), func(i, j int) { c.tmids[i], c.tmids[j] = c.tmids[j], c.tmids[i] })
 	}
 	c.cfg = snap.Config{KeepPointsAndLines: rng.Intn(2) == 0, ReverseWindingOrder: rng.Intn(2) == 0}
-	c.setPoly(w.toPoly(rings, U, pixelSize(w.gs, w.maxID)))
+	poly := w.toPoly(rings, U, pixelSize(w.gs, w.maxID))
+	if w.gs.levelDiff != 4 && rng.Intn(4) == 0 {
+		// real grids: some vertices that sit on a pixel border are moved one to three float64 steps below it (where a quotient taken in floating
+		// point lands on the other side of the border than the exact one)
+		for ri := range poly {
+			for vi := range poly[ri] {
+				if rings[ri][vi].x%U == 0 && rng.Intn(3) == 0 {
+					for k := 1 + rng.Intn(3); k > 0; k-- {
+						poly[ri][vi][0] = math.Nextafter(poly[ri][vi][0], math.Inf(-1))
+					}
+				}
+				if rings[ri][vi].y%U == 0 && rng.Intn(3) == 0 {
+					for k := 1 + rng.Intn(3); k > 0; k-- {
+						poly[ri][vi][1] = math.Nextafter(poly[ri][vi][1], math.Inf(-1))
+					}
+				}
+			}
+		}
+	}
+	c.setPoly(poly)
 	if valid && !validPolygon(c.rings) { // the quantised integer polygon must be valid too (real grids)
 		return nil
 	}
